@@ -14,3 +14,4 @@ pub mod c11;
 pub mod eng;
 pub mod c12;
 pub mod c17;
+pub mod rx;
